@@ -203,6 +203,42 @@ def streams(trace):
     return out, py_bad
 
 
+
+def match_loop_correspondence(rng, count, tag):
+    """Model/Match.match_minute (Coq, exact rationals) against the real _simulate_price_change_effect on `count` scripted minutes (resting orders in and
+    outside the range, reactions that cancel and place orders at fills).  Returns (n_good, cases that ran into an exception, cases where model and code differ, coq errors).
+    Shared by C02 and C08: both properties' theorems are about match_minute."""
+    hdr = ('From Coq Require Import ZArith QArith Qcanon List Bool Arith PrimFloat.\nFrom JV Require Import Base.Num Model.Match Run.Harness Run.KernelRun Run.C02Run.\n'
+           'Import ListNotations.\n')
+    mcases = []
+    for _ in range(count):
+        candle, orders, script = gen_minute(rng)
+        try:
+            k, fills, parts, left = real_minute(candle, orders, script)
+        except Exception as ex:
+            mcases.append({'candle': candle, 'orders': orders, 'script': script, 'error': type(ex).__name__ + ': ' + str(ex)[:200]}); continue
+        mcases.append({'candle': k, 'orders': orders, 'script': script, 'fills': fills, 'parts': parts, 'left': left})
+    merr = [m for m in mcases if 'error' in m]
+    good = [m for m in mcases if 'error' not in m]
+
+    def mterm(m):
+        sc = C.clist([f"({C.cnat(t)}, ({C.clist([C.cnat(i) for i in cn])}, {C.clist([f'({C.cnat(i)}, {qq(p)})' for i, p in nw])}))" for t, (cn, nw) in sorted(m['script'].items())])
+        return (f"({cndq(m['candle'])}, {C.clist([f'({C.cnat(i)}, {qq(p)})' for i, p in m['orders']])}, {sc}, {C.clist([C.cnat(i) for i in m['fills']])}, "
+                f"{C.clist([cndq(p) for p in m['parts']])}, {C.clist([C.cnat(i) for i in m['left']])})")
+    jobs = []
+    for j in range(0, len(good), 100):
+        body = ';\n'.join(mterm(m) for m in good[j:j + 100])
+        jobs.append((f'{tag}_{j // 100}', j, hdr + f'Definition cs : list minute_case := [\n{body}\n].\nEval vm_compute in (bad_indices (map minute_agrees cs)).\n'))
+    outs = C.coq_eval_many([(j[0], j[2]) for j in jobs], timeout=1500)
+    bad, errs = [], []
+    for j, (rc, o) in zip(jobs, outs):
+        r = C.parse_results(o)
+        if rc != 0 or len(r) != 1:
+            errs.append(o[-600:]); continue
+        bad += [good[j[1] + i] for i in C.parse_nat_list(r[0])]
+    return len(good), merr, bad, errs
+
+
 def run(tier, seed, replay=None):
     from . import engine as E
     res = C.Result(PID, tier, seed)
